@@ -25,6 +25,8 @@ GENERAL_RATES = [
     ('g_power', ('*', ID('kf'), ('^', ID('A'), NUM(2)))),
     ('g_power_param', ('*', ID('kf'), ('^', ID('A'), ID('nn')))),
     ('g_nested_power', ('^', ('^', ID('A'), NUM(2)), NUM(0.5))),
+    ('g_tower3', ('*', ID('kf'), ('^', ('^', ('^', ID('A'), ID('sh')), ID('KK')), ID('nn')))),
+    ('g_tower4', ('^', ('^', ('^', ('^', ID('B'), ID('sh')), NUM(0.5)), ID('nn')), ID('mu'))),
     ('g_exp', ('*', ID('kf'), ('exp', ('neg', ID('B'))))),
     ('g_log', ('*', ID('kf'), ('log', ('+', ID('A'), NUM(1))))),
     ('g_abs', ('abs', ('-', ID('A'), ID('B')))),
@@ -84,7 +86,12 @@ def rule_specs(tier):
         rules.append(dict(type='additive', target='X', sources=['A', 'B'], freq=f))
         rules.append(dict(type='assignment', target='Y', rhs=('+', ('*', NUM(2), ID('A')), ID('KK')), freq=f))
         rules.append(dict(type='assignment', target='kf', rhs=('/', ID('B'), NUM(4)), freq=f))
-    for r in rules:
+    # firing times that need all 17 significant digits (taken from ordinary float grids), single rules only
+    extra = []
+    for f in (0.1 + 0.2, 1.0 / 3.0, repr(0.1 + 0.2), 2.0 / 3.0, 1234567.125, 1e-7 + 1e-9):
+        extra.append(dict(type='assignment', target='Y', rhs=('+', ('*', NUM(2), ID('A')), ID('KK')), freq=f))
+        extra.append(dict(type='additive', target='X', sources=['A', 'B'], freq=f))
+    for r in rules + extra:
         out.append(spec('rules/1/%s/%s' % (r['type'], r['freq']), SP + ['X', 'Y'], x0, rx, PARAMS, [r]))
     for a, b in itertools.permutations(rules, 2):
         if a['target'] == b['target']:
